@@ -251,7 +251,10 @@ class Known:
         self.fixed = [e for e in self.all if e.get('status') == 'fixed']
 
     def open_classes(self):
-        return sorted({e['class'] for e in self.open if e.get('class')})
+        out = {e['class'] for e in self.open if e.get('class')}
+        for e in self.open:
+            out.update(e.get('classes') or ())
+        return sorted(out)
 
 
 # ---------------------------------------------------------------- worker side
